@@ -1,5 +1,6 @@
 import Dia.ClientPolite
 import Dia.ClientWire
+import Dia.ClientEmbed
 /-! # C11 - Client delivers each answer to the request it belongs to. Property theorems only.
 The client is the labelled transition system of `Dia/Client.lean`; a *run* is any list of labels, i.e. any
 interleaving of the sender, the reader task and an arbitrary peer, at the granularity of the code's critical
@@ -58,3 +59,35 @@ theorem C11_segmentation_irrelevant (cfg : Dia.Cfg) (dict : Dia.Lookup) (frames 
   exact ⟨h1, by rw [h1, h2]⟩
 
 end Dia.Cl
+
+/-! ## One client object, several connections
+`Dia/ClientMulti.lean`: the connections of one `DiameterClient` share the table of waiting requests. -/
+namespace Dia.Cm
+open Dia.Cl (WStatus Item Reader SendPhase upd)
+
+/-- **C11, safety, for a client with any number of connections, every interleaving of their readers, every peer.**
+Whatever a response future holds is a message some peer emitted, and its hop-by-hop identifier is the identifier of that
+future's own request - on whichever connection the answer arrived. -/
+theorem C11_multi_safety (ls : List Label) (s : St) (h : run init ls = some s) (w : Nat) (m : Cl.Msg)
+    (hw : w < s.nW) (hg : s.status w = .got m) : m.hbh = s.hbhOf w ∧ m ∈ s.emitted :=
+  (inv_run ls inv_init h).got_ok w m hw hg
+
+/-- two readers never hold the same waiter: an answer is handed to a future by at most one connection's reader -/
+theorem C11_multi_one_deliverer (ls : List Label) (s : St) (h : run init ls = some s) (c c' : Nat) (m m' : Cl.Msg) (w : Nat)
+    (h1 : s.reader c = .removed m w) (h2 : s.reader c' = .removed m' w) : c = c' :=
+  (inv_run ls inv_init h).rem_uniq c c' m m' w h1 h2
+
+/-- **the single-connection model is the one-connection slice of this one**: every run of `Dia.Cl` is, label for label,
+a run of `Dia.Cm` after one `connect`, ending in the corresponding state - so `C11_safety`, `C11_delivery`, `C11_once`
+and the C12 theorems of `Dia.Cl` are statements about runs of this model too. -/
+theorem C11_single_is_slice (ls : List Cl.Label) (s' : Cl.St) (h : Cl.run Cl.init ls = some s') :
+    run init (.connect :: ls.map liftL) = some (lift s') ∧ (lift s').nC = 1 ∧
+    (lift s').status = s'.status ∧ (lift s').hbhOf = s'.hbhOf ∧ (lift s').reader 0 = s'.reader :=
+  ⟨embed ls s' h, rfl, rfl, rfl, rfl⟩
+
+/-- non-vacuity: the answer to a request written on connection 0 arrives on connection 1 (the table is shared) -/
+example : ∃ s, run init [.connect, .sendBegin 7, .write, .sendReturn, .connect, .peerEmit 1 (.msg ⟨7, 3⟩),
+    .readerDecode 1, .readerRemove 1, .readerDeliver 1] = some s ∧ s.status 0 = .got ⟨7, 3⟩ := by
+  refine ⟨_, rfl, ?_⟩; decide
+
+end Dia.Cm
